@@ -1,0 +1,75 @@
+//go:build verif
+
+// Contracts for the verification machinery in /verif (comment-only; no code).
+
+package p2pmux
+
+// ---- fixed-width multiplexers: header = big-endian channel id -------------------------------
+
+//@ func uint16MuxFunc
+//@   ensures len(ret) == len(x) + 1 && fresh(ret) && fresh(ret[0])
+//@   ensures len(ret[0]) == 2 && ret[0][0] == c / 256 && ret[0][1] == c % 256
+//@   ensures forall j :: 0 <= j && j < len(x) ==> ret[j+1] == x[j]
+//@
+//@ func uint16DemuxFunc
+//@   ensures len(data) < 2 ==> ret2 != nil
+//@   ensures len(data) >= 2 ==> ret2 == nil && ret0 == data[0]*256 + data[1]
+//@   ensures len(data) > 2 ==> ret1 == data[2:]
+//@   ensures len(data) == 2 ==> len(ret1) == 0
+//@
+//@ func uint32MuxFunc
+//@   ensures len(ret) == len(x) + 1 && fresh(ret) && fresh(ret[0])
+//@   ensures len(ret[0]) == 4
+//@   ensures ret[0][0] == c / 16777216 && ret[0][1] == (c / 65536) % 256 && ret[0][2] == (c / 256) % 256 && ret[0][3] == c % 256
+//@   ensures forall j :: 0 <= j && j < len(x) ==> ret[j+1] == x[j]
+//@
+//@ func uint32DemuxFunc
+//@   ensures len(data) < 4 ==> ret2 != nil
+//@   ensures len(data) >= 4 ==> ret2 == nil && ret0 == ((data[0]*256 + data[1])*256 + data[2])*256 + data[3]
+//@   ensures len(data) > 4 ==> ret1 == data[4:]
+//@   ensures len(data) == 4 ==> len(ret1) == 0
+//@
+//@ spec func be64(d []byte) int = ((((((d[0]*256 + d[1])*256 + d[2])*256 + d[3])*256 + d[4])*256 + d[5])*256 + d[6])*256 + d[7]
+//@
+//@ func uint64MuxFunc
+//@   ensures len(ret) == len(x) + 1 && fresh(ret) && fresh(ret[0])
+//@   ensures len(ret[0]) == 8
+//@   ensures ret[0][0] == c / 72057594037927936 && ret[0][1] == (c / 281474976710656) % 256
+//@   ensures ret[0][2] == (c / 1099511627776) % 256 && ret[0][3] == (c / 4294967296) % 256
+//@   ensures ret[0][4] == (c / 16777216) % 256 && ret[0][5] == (c / 65536) % 256
+//@   ensures ret[0][6] == (c / 256) % 256 && ret[0][7] == c % 256
+//@   ensures forall j :: 0 <= j && j < len(x) ==> ret[j+1] == x[j]
+//@
+//@ func uint64DemuxFunc
+//@   ensures len(data) < 8 ==> ret2 != nil
+//@   ensures len(data) >= 8 ==> ret2 == nil && ret0 == be64(data)
+//@   ensures len(data) > 8 ==> ret1 == data[8:]
+//@   ensures len(data) == 8 ==> len(ret1) == 0
+
+// ---- variable-length multiplexers -----------------------------------------------------------
+
+//@ func varintMuxFunc
+//@   ensures len(ret) == len(x) + 1 && fresh(ret) && fresh(ret[0])
+//@   ensures len(ret[0]) == uvarint_len(c)
+//@   ensures forall j :: 0 <= j && j < uvarint_len(c) ==> ret[0][j] == uvarint_byte(c, j)
+//@   ensures forall j :: 0 <= j && j < len(x) ==> ret[j+1] == x[j]
+//@
+//@ func varintDemuxFunc
+//@   ensures uvarint_n(data) < 1 ==> ret2 != nil
+//@   ensures uvarint_n(data) >= 1 ==> ret2 == nil && ret0 == uvarint_val(data) && ret1 == data[uvarint_n(data):]
+//@
+//@ func stringMuxFunc
+//@   ensures len(ret) == len(x) + 1 && fresh(ret) && fresh(ret[0])
+//@   ensures len(ret[0]) == uvarint_len(len(c)) + len(c)
+//@   ensures forall j :: 0 <= j && j < uvarint_len(len(c)) ==> ret[0][j] == uvarint_byte(len(c), j)
+//@   ensures forall j :: 0 <= j && j < len(c) ==> ret[0][uvarint_len(len(c)) + j] == c[j]
+//@   ensures forall j :: 0 <= j && j < len(x) ==> ret[j+1] == x[j]
+//@
+//@ func stringDemuxFunc
+//@   ensures uvarint_n(x) < 1 ==> ret2 != nil
+//@   ensures uvarint_n(x) >= 1 && uvarint_val(x) > len(x) - uvarint_n(x) ==> ret2 != nil
+//@   ensures uvarint_n(x) >= 1 && uvarint_val(x) <= len(x) - uvarint_n(x) ==> ret2 == nil \
+//@        && len(ret0) == uvarint_val(x) \
+//@        && (forall j :: 0 <= j && j < len(ret0) ==> ret0[j] == x[uvarint_n(x) + j]) \
+//@        && len(ret1) == len(x) - uvarint_n(x) - uvarint_val(x) \
+//@        && (len(ret1) > 0 ==> ret1 == x[uvarint_n(x) + uvarint_val(x):])
